@@ -142,7 +142,8 @@ impl H {
                     wow_srp::error::InvalidPublicKeyError::PublicKeyIsZero => "zero",
                     wow_srp::error::InvalidPublicKeyError::PublicKeyModLargeSafePrimeIsZero => "modN",
                 };
-                self.tr.ev(json!({"ev": "PubKey", "bytes": b(&bytes), "res": {"kind": "err", "err": kind, "display": e.to_string()}, "draws": d}));
+                self.tr.ev(json!({"ev": "PubKey", "bytes": b(&bytes), "res": {"kind": "err", "err": kind, "display": b(e.to_string().as_bytes()),
+                    "viaSrpError": b(wow_srp::error::SrpError::from(e).to_string().as_bytes())}, "draws": d}));
                 None
             }
             Err(m) => {
@@ -199,7 +200,7 @@ impl H {
                 Some((o2, s, m2))
             }
             Ok(Err(err)) => {
-                e["res"] = json!({"kind": "err", "client": b(&err.client_proof), "server": b(&err.server_proof)});
+                e["res"] = json!({"kind": "err", "client": b(&err.client_proof), "server": b(&err.server_proof), "display": b(err.to_string().as_bytes())});
                 self.tr.ev(e);
                 self.drop_event(consumed);
                 None
